@@ -95,6 +95,16 @@ func (g *Gen) operandZoo() ([]string, []L.Stmt) {
 			g.class("meta:shared_handlers")
 		}
 	}
+	if g.n(3, "metameta") == 0 {
+		// the metatable has a metatable of its own whose __index offers a handler for every event: events are looked up raw,
+		// none of these may ever run
+		g.class("meta:metatable_with_inheriting_metatable")
+		inh := tbl()
+		for _, ev := range []string{"__add", "__sub", "__mul", "__div", "__mod", "__pow", "__concat", "__unm", "__eq", "__lt", "__le", "__call", "__tostring", "__len", "__index", "__newindex", "__metatable"} {
+			inh.Fields = append(inh.Fields, kv(str(ev), fn(nil, true, blk(emit(str("a handler inherited through the metatable's metatable ran"), str(ev)), ret(str("inherited"))))))
+		}
+		ss = append(ss, callStmt(call(name("setmetatable"), name("mtA"), tbl(kv(str("__index"), inh)))))
+	}
 	mk := func(n, mt string) L.Stmt {
 		g.opMt[n] = mtTag[mt]
 		if g.n(3, "udobj") == 0 {
@@ -240,7 +250,10 @@ func (g *Gen) tplMetaOps() []L.Stmt {
 			// the same lookups through a computed key, a method call and as the environment of a function
 			ss = append(ss, local1("ck", str("computed")), protect(idx(name("base"), name("ck")), idx(name("base"), num(7))),
 				emit(call(name("pcall"), fn(nil, false, blk(ret(mcall(name("base"), "method", num(1))))))),
-				local1("envf", fn(nil, false, blk(ret(name("freeglobal"))))), callStmt(call(name("setfenv"), name("envf"), name("base"))), emit(call(name("pcall"), name("envf"))))
+				local1("envf", fn(nil, false, blk(ret(name("freeglobal"))))), callStmt(call(name("setfenv"), name("envf"), name("base"))), emit(call(name("pcall"), name("envf"))),
+				// an assignment to a free name goes through the environment's __newindex like any other store
+				local1("envw", fn(nil, false, blk(assign1(name("assignedglobal"), str("w")), &L.FuncStmt{Target: name("declaredglobal"), Fn: fn(nil, false, blk(ret(num(1))))}))), callStmt(call(name("setfenv"), name("envw"), name("base"))), emit(call(name("pcall"), name("envw"))),
+				emit(call(name("rawget"), name("bottom"), str("assignedglobal")), call(name("rawget"), name("base"), str("assignedglobal")), call(name("type"), call(name("rawget"), name("bottom"), str("declaredglobal"))), name("assignedglobal")))
 			if g.n(3, "loopchain") == 0 {
 				// a chain that loops back on itself must end in an error, not hang
 				ss = append(ss, local1("l1", tbl()), local1("l2", call(name("setmetatable"), tbl(), tbl(kv(str("__index"), name("l1"))))), callStmt(call(name("setmetatable"), name("l1"), tbl(kv(str("__index"), name("l2"))))),
